@@ -102,6 +102,8 @@ class Obs:
         if idl is not None:
             for name, idx in sorted(zip(names, idl)):
                 if isinstance(idx, range):
+                    if idx.step < 0:
+                        raise ValueError("Unsorted idx for idl[%s]: range with negative step" % (name))
                     self.idl[name] = idx
                 elif isinstance(idx, (list, np.ndarray)):
                     dc = np.unique(np.diff(idx))
